@@ -435,6 +435,9 @@ fn output_selector(
             if (!nested && !second_pass) || (nested && second_pass) {
                 if let Some(extra_target_template) = config.extra_target_template.as_ref() {
                     let mut template = extra_target_template.clone();
+                    //(the resource last: its name may itself contain `{begin}` or `{end}`)
+                    template = template.replace("{begin}", &format!("{}", textselection.begin()));
+                    template = template.replace("{end}", &format!("{}", textselection.end()));
                     template = template.replace(
                         "{resource}",
                         &into_iri(
@@ -442,8 +445,6 @@ fn output_selector(
                             &config.default_resource_iri,
                         ),
                     );
-                    template = template.replace("{begin}", &format!("{}", textselection.begin()));
-                    template = template.replace("{end}", &format!("{}", textselection.end()));
                     if !ann_out.is_empty() {
                         ann_out.push(',');
                     }
